@@ -50,6 +50,14 @@ Proof.
   destruct exc as [e0|]; [destruct (t_wrote_header t)|]; auto. apply (G (set_rh [] t)).
 Qed.
 
+Lemma run_actions_single disc s a :
+  run_actions cap lower c r disc s [a] =
+  match run_action cap lower c r disc s a with
+  | (s1, Exn e) => (s1, Exn e)
+  | (s1, Ok _) => (s1, Ok tt)
+  end.
+Proof. reflexivity. Qed.
+
 Definition len1 (k : ikind) : bool := match k with KSized n => n =? 1 | _ => false end.
 Definition is_file (k : ikind) : bool := match k with KFile _ => true | _ => false end.
 
@@ -75,11 +83,13 @@ Proof.
   cbn zeta in Eraw. rewrite Eraw. clear Eraw.
   unfold task_service.
   destruct (x_out (task_run cap lower c r None (t0, mkChan [] 0) (inl (simple_app status hs kind chunks hc)))) as [[]|e] eqn:Eraw;
-    [|discriminate].
+    [|intro X; discriminate X].
   intros _. unfold ladder. rewrite Eraw. cbn [o_writes o_close o_next o_escaped fst snd].
-  revert Eraw. unfold task_run, wsgi_execute, simple_app. cbn [a_call a_kind a_steps a_has_close a_close_exn run_actions run_action].
+  revert Eraw. unfold task_run, wsgi_execute, simple_app. cbn [a_call a_kind a_steps a_has_close a_close_exn].
+  rewrite run_actions_single. cbn [run_action fst snd].
   pose proof (start_response_no_cl t0 (PStr status) hs None Hcl) as Hclen.
-  destruct (start_response lower t0 (PStr status) hs None) as [t1 [[]|e1]] eqn:Esr; cbn [fst snd]; [|cbn; discriminate].
+  destruct (start_response lower t0 (PStr status) hs None) as [t1 [[]|e1]] eqn:Esr; cbn [fst snd];
+    [|cbn; intro X; discriminate X].
   cbn [fst] in Hclen.
   destruct (start_response_ok lower _ _ _ _ _ Esr) as (_ & _ & _ & Hc1 & Hw1 & _).
   cbn [t_wrote_header new_task t0] in Hw1.
@@ -96,12 +106,12 @@ Proof.
     as [[Hall Hs]|(tp & head & Eb & S2 & W2)].
   - (* every chunk was empty: finish() sends the head *)
     inversion Hs; subst t2 ch2. rewrite Hcl1.
-    assert (Hx : forall n h, x_out (if true && hc then mkExec (t1, mkChan [] 0) (Ok tt) n false true
+    assert (Hx : forall n : nat, x_out (if true && hc then mkExec (t1, mkChan [] 0) (Ok tt) n false true
                                     else mkExec (t1, mkChan [] 0) (Ok tt) 0 (negb true) true) = Ok tt
                              /\ x_st (if true && hc then mkExec (t1, mkChan [] 0) (Ok tt) n false true
                                     else mkExec (t1, mkChan [] 0) (Ok tt) 0 (negb true) true) = (t1, mkChan [] 0))
       by (intros; destruct (true && hc); auto).
-    destruct (Hx 1%nat false) as [Ho Hst]. rewrite Ho, Hst.
+    destruct (Hx 1%nat) as [Ho Hst]. rewrite Ho, Hst.
     destruct (task_finish cap lower c r None (t1, mkChan [] 0)) as [s3 [[]|e3]] eqn:Ef; cbn [x_out x_st]; [|discriminate].
     intros _. destruct (finish_fresh cap lower c r t1 (mkChan [] 0) s3 (Ok tt) Hc1 Hw1 Ef eq_refl) as (tp & head & Eb & Ht & W).
     exists t1, tp, head. split; auto. split; auto.
